@@ -134,7 +134,9 @@ func checkFramingLate(w *core.Worker, raw []byte, H, declared int, flags uint8, 
 		return fail(fmt.Sprintf("verdict %s converts to the error value %v", errName(e), ec))
 	}
 	m := &o.m
-	if m.Parsed() != wp {
+	// Parsed() must say "done" exactly when success was reported; what it says after the
+	// no-Content-Length verdict is not stated
+	if (e == sipsp.ErrHdrOk || e == sipsp.ErrHdrMoreBytes) && m.Parsed() != wp {
 		return fail(fmt.Sprintf("expected Parsed()=%v", wp))
 	}
 	if e == sipsp.ErrHdrOk {
@@ -145,9 +147,7 @@ func checkFramingLate(w *core.Worker, raw []byte, H, declared int, flags uint8, 
 			return fail(fmt.Sprintf("expected RawMsg = Buf = buf[:%d] (got lengths %d / %d)", n, len(m.RawMsg), len(m.Buf)))
 		}
 	}
-	if e == sipsp.ErrHdrNoCLen && (len(m.RawMsg) != H || int(m.Body.Offs) != H || m.Body.Len != 0) {
-		return fail("expected the raw message to end at the body start for the no-Content-Length verdict")
-	}
+	// (which views are filled in after the no-Content-Length verdict is not stated: not judged)
 	return true
 }
 
